@@ -40,6 +40,10 @@ func init() { families["opts"] = runOpts }
 type layerLog struct {
 	mu                             sync.Mutex
 	enter, exit, sendpre, recvpost []string
+	// overlap: the first WrapStreamingClient invocation on the client parks (inside the library's construction of that
+	// call's chain) until the gate opens, so that another streaming call overlaps with it
+	gate, inside chan struct{}
+	gateOnce     sync.Once
 }
 
 func (l *layerLog) add(dst *[]string, n string) {
@@ -87,6 +91,14 @@ func (c *loggingClientConn) Receive(m any) error {
 }
 
 func (i *namedInterceptor) WrapStreamingClient(next connect.StreamingClientFunc) connect.StreamingClientFunc {
+	if i.side == "client" && i.log.gate != nil {
+		first := false
+		i.log.gateOnce.Do(func() { first = true })
+		if first {
+			close(i.log.inside)
+			<-i.log.gate
+		}
+	}
 	return func(ctx context.Context, spec connect.Spec) connect.StreamingClientConn {
 		if i.side != "client" {
 			return next(ctx, spec)
@@ -368,6 +380,33 @@ func runOpts(raw json.RawMessage, seed int64, rec *Rec) {
 		rounds = 2
 		armed = false
 	}
+	// every third scenario, on a client's streaming calls: the first call is parked while the library builds its
+	// chain, and the observed call is made meanwhile (the client's very first streaming calls overlap)
+	var parked chan struct{}
+	if s.Side == "client" && kind != "unary" && s.Tid%3 == 1 {
+		log.gate, log.inside = make(chan struct{}), make(chan struct{})
+		parked = make(chan struct{})
+		go func() {
+			defer close(parked)
+			if kind == "server" {
+				if ss, err := client.CallServerStream(ctx, connect.NewRequest(&BV{Value: []byte{9}})); err == nil {
+					for ss.Receive() {
+					}
+					_ = ss.Close()
+				}
+				return
+			}
+			bs := client.CallBidiStream(ctx)
+			_ = bs.CloseRequest()
+			_, _ = bs.Receive()
+			_ = bs.CloseResponse()
+		}()
+		select {
+		case <-log.inside:
+			rounds = 1 // the parked call is the earlier one
+		case <-parked: // no interceptor was consulted at all (an empty chain): nothing to overlap with
+		}
+	}
 	for round := 1; round <= rounds; round++ {
 		if round == rounds {
 			armed = true
@@ -425,6 +464,17 @@ func runOpts(raw json.RawMessage, seed int64, rec *Rec) {
 			}
 			_ = bs.CloseResponse()
 		}
+	}
+	if parked != nil {
+		// what the observed call logged is kept; the parked call may finish now
+		log.mu.Lock()
+		e1, e2, e3, e4 := log.enter, log.exit, log.sendpre, log.recvpost
+		log.mu.Unlock()
+		close(log.gate)
+		<-parked
+		log.mu.Lock()
+		log.enter, log.exit, log.sendpre, log.recvpost = e1, e2, e3, e4
+		log.mu.Unlock()
 	}
 	log.mu.Lock()
 	nzs := func(a []string) []string {
